@@ -116,6 +116,11 @@ def generate(rng, tier):
     enums = [gen_enum(rng)]
     k = rng.randint(2, 5)
     fields = rng.sample(FIELDS, k)
+    wide = rng.random() < 0.04
+    if wide:
+        # a wide table: the format string it reports is several hundred characters long
+        k = rng.choice([18, 24, 40])
+        fields = [f"w{i:02}" for i in range(k)]
     odd = rng.random() < 0.2
     if odd:
         # an unusual but legal field name (holds plain strings)
@@ -168,7 +173,7 @@ def generate(rng, tier):
         table["struct"] = struct
     if has_enum:
         table["types"] = {"status": 0}
-    if rng.random() < 0.7:
+    if rng.random() < (0.3 if wide else 0.7):
         table["fmt"] = gen_fmt(rng, fields, has_enum)
     if rng.random() < 0.3:
         table["header"] = "Title of the table"
